@@ -467,9 +467,17 @@ func (fr *Frame) lookupName(name string, e *Env) (TV, bool) {
 			if !cnd.block.Dominates(e.at) {
 				return
 			}
-			if cnd.block == e.at {
-				// only values already defined at the evaluation point are usable;
-				// at loop heads we allow pure header instructions (recomputed)
+			if cnd.block == e.at && e.atStart {
+				// at a loop head only phis and pure header instructions (recomputed
+				// from the phis) are defined; values computed later in the header
+				// block belong to the iteration that is about to start
+				switch cnd.v.(type) {
+				case *ssa.Phi, *ssa.BinOp, *ssa.Convert, *ssa.ChangeType, *ssa.Parameter, *ssa.Const:
+				default:
+					if u, ok := cnd.v.(*ssa.UnOp); !ok || u.Op == token.MUL || u.Op == token.ARROW {
+						return
+					}
+				}
 			}
 		}
 		if _, ok := fr.vals[cnd.v]; !ok {
